@@ -10,16 +10,16 @@ CONSTANTS
   PersistPreset = "wide"
   DefaultSet = {FALSE}
   PreSet = {"none"}
-  FileDeny = {"f_alpha", "f_b1"}
-  CmdDeny = {"c_pre"}
+  FileDeny = {"f_b1"}
+  CmdDeny = {}
   CompDeny = {"k_pa"}
   MaxDeny = 1
   ViaSet = {"manifest"}
   StrategySet = {"serial", "parallel"}
   WorkerSet = {"default"}
   CompressSet = {FALSE}
-  AlphaSet = {"present", "absent"}
-  GammaSet = {"val", "oserr", "crash", "content"}
+  AlphaSet = {"present"}
+  GammaSet = {"val", "oserr"}
   Interleave = TRUE
   CfgMode = "documented"
   PersistMode = "documented"
